@@ -1,5 +1,6 @@
 import Lean.Data.Json
 import SpoxModel.Model.Types
+import SpoxModel.Model.TypesGlue
 import SpoxModel.Generated.Dtypes
 /-! Line-protocol handler for C13: runs the model's `subtype`, `Shape.le`, `broadcast`, `toOnnx`,
     `fromOnnx`, `compat`, `npBroadcast` on batches of types / shapes (with the generated table).
@@ -188,6 +189,29 @@ def handleE (req : Json) : Except String Json := do
       let ss ← (← req.getObjValAs? (Array (Array Nat)) "shapes").toList.mapM (fun a => pure a.toList)
       let out := ss.flatMap (fun a => ss.map (fun b => optJ (fun (l : List Nat) => toJson l) (npBroadcast a b)))
       pure (Json.mkObj [("np", Json.arr out.toArray)])
+  | "glue" =>
+      -- round 10: Shape.__getitem__ (int indices), __bool__, shape[-1-i] or 1, unwrap_*, _is_concrete
+      let ts ← (← req.getObjValAs? (Array Json) "types").toList.mapM parseTy
+      let ss ← (← req.getObjValAs? (Array Json) "shapes").toList.mapM parseShape
+      let idx ← (← req.getObjValAs? (Array Json) "idx").toList.mapM (fun j => fromJson? (α := Int) j)
+      let nr ← req.getObjValAs? Nat "nrdim"
+      let unw (t : Ty) (r : Option Ty) : Json :=
+        match r with
+        | none => Json.str "TypeError"
+        | some t' => Json.str (if t' == t then "self" else "other")
+      let tout := ts.map (fun t => Json.mkObj [("tensor", unw t (unwrapTensor t)), ("sequence", unw t (unwrapSeq t)),
+        ("optional", unw t (unwrapOpt t)), ("concrete", toJson (isConcrete t))])
+      let sout := ss.map (fun s => Json.mkObj [("truthy", toJson (Shape.truthy s)),
+        ("items", Json.arr (idx.map (fun i =>
+          match s with
+          | none => Json.str "ShapeError"
+          | some _ => (match Shape.getItem s i with
+                       | none => Json.str "IndexError"
+                       | some d => Json.arr #[dimJ d]))).toArray),
+        ("rdim", match s with
+                 | none => Json.null
+                 | some l => Json.arr ((List.range nr).map (fun i => dimJ (rdim l i))).toArray)])
+      pure (Json.mkObj [("types", Json.arr tout.toArray), ("shapes", Json.arr sout.toArray)])
   | _ => throw "unknown op"
 
 /-- One request (a JSON value) in, one response (a JSON value) out. -/
